@@ -64,6 +64,15 @@ def handle (line : String) : String :=
       let (v, c) ← c.rats? 4
       if !c.atEnd then none
       pure (" ".intercalate ((TetraPy.argsort (fun k : Fin 4 => v.getD k.1 0)).map fun k => toString k.1))
+    | "diag" =>
+      -- diag P(9, row major) mesh(3): chosen main diagonal and the four squared lengths of the microzone diagonals
+      let (pv, c) ← c.rats? 9
+      let (m, c) ← c.rats? 3
+      if !c.atEnd then none
+      if m.any (· == 0) then none
+      let L : Fin 3 → Fin 3 → Rat := TetraPy.microzone (fun i j => pv.getD (i.1 * 3 + j.1) 0) (fun j => m.getD j.1 1)
+      let l := TetraPy.diagLens L
+      pure (toString (TetraPy.mainDiagonal L).1 ++ " " ++ showRats #[l 0, l 1, l 2, l 3])
     | "tables" =>
       if !c.atEnd then none
       pure (" ".intercalate (TetraC.main_diagonals.flatten.map toString) ++ " | " ++ showTable4 TetraC.db_relative_grid_address)
